@@ -9,6 +9,8 @@ nothing; shallow copies share contents.  Mutation events are collected after the
 from __future__ import annotations
 
 import ast
+import os
+import time
 from typing import Dict, FrozenSet, Iterable, List, Optional, Set, Tuple
 
 from .callgraph import CallGraph
@@ -77,6 +79,9 @@ class Event:
 
 class EffectsEngine:
     MAX_ROUNDS = 40
+    MAX_OBJECTS = 60000
+    MAX_SECONDS = 90
+    _t0 = 0.0
 
     def __init__(self, repo: Repo, cg: CallGraph, types: TypeEngine, entries: Optional[List[dict]] = None):
         self.repo = repo
@@ -105,6 +110,9 @@ class EffectsEngine:
     # -- objects ---------------------------------------------------------------------------
     def new_obj(self, key: tuple, kind: str, label: str, where: str = '') -> Obj:
         if key not in self.alloc:
+            if len(self.objs) >= self.MAX_OBJECTS or (self._t0 and time.time() - self._t0 > self.MAX_SECONDS):
+                raise AnalysisError(f'points-to analysis exceeds its budget ({len(self.objs)} abstract objects, {time.time() - self._t0:.0f}s): '
+                                    f'the program allocates in a pattern the object abstraction does not bound')
             o = Obj(len(self.objs), kind, label, where)
             self.objs.append(o)
             self.alloc[key] = o
@@ -153,6 +161,14 @@ class EffectsEngine:
                 self.epoch += 1
 
     def clone(self, site: tuple, o: Obj, deep: bool) -> Obj:
+        # widening: a copy made at this site of something that is itself (a copy of ...) a copy made at this site is represented by
+        # that earlier copy - otherwise `x = f(x)` in a loop allocates copy-of-copy-of-... without bound
+        a, hops = o, 0
+        while a is not None and hops < 64:
+            if a.origin is not None and a.site == site and a.deep == deep:
+                return a
+            a = a.origin
+            hops += 1
         key = ('clone', site, o.oid, deep)
         if key not in self.alloc:
             c = self.new_obj(key, o.kind, f'{"deepcopy" if deep else "copy"}@{site[-1]} of {o.label}', o.where)
@@ -316,9 +332,14 @@ class EffectsEngine:
     def _solve(self):
         for fq in self.funcs:
             self.contexts.setdefault(fq, set()).add(None)
+        self._t0 = time.time()
         for rnd in range(self.MAX_ROUNDS):
             self.rounds = rnd + 1
             self.changed = False
+            if time.time() - self._t0 > self.MAX_SECONDS:
+                raise AnalysisError(f'points-to analysis exceeds its time budget after {rnd} rounds ({len(self.objs)} abstract objects)')
+            if os.environ.get('PV_E4_TRACE'):
+                print(f'E4 round {rnd}: objs={len(self.objs)} ctxs={sum(len(v) for v in self.contexts.values())} t={time.time() - self._t0:.1f}', flush=True)
             self._eval_modules()
             for fq, fi in self.funcs.items():
                 for ctx in list(self.contexts.get(fq, {None})):
